@@ -152,6 +152,30 @@ func c05Body(depth int) mc.Body {
 				m = append(m, c05Req{fmt.Sprintf("node points on A with NaN at position %d", pos), "nan-node-point", false, "A", "", mk(pos)})
 				m = append(m, c05Req{fmt.Sprintf("node points on the root with NaN at position %d", pos), "nan-node-point", false, root, "", mk(pos)})
 			}
+			// large batches (a history upload): a store that writes them piecewise must not keep the pieces before the NaN
+			mkBig := func(pos int) data.Points {
+				var ps data.Points
+				for i := 0; i < 150; i++ {
+					ps = append(ps, data.Point{Type: "big", Key: fmt.Sprintf("k%d", i), Value: float64(i), Time: tick()})
+				}
+				ps[pos].Value = nan
+				return ps
+			}
+			for _, pos := range []int{64, 100, 149} {
+				m = append(m, c05Req{fmt.Sprintf("150 node points on A with NaN at position %d", pos), "nan-node-point", false, "A", "", mkBig(pos)})
+			}
+			{
+				var first *[2]string
+				for e := range g.edges {
+					e := e
+					if first == nil || e[0]+">"+e[1] < first[0]+">"+first[1] {
+						first = &e
+					}
+				}
+				if first != nil {
+					m = append(m, c05Req{fmt.Sprintf("150 edge points on %s>%s with NaN at position 100", first[0], first[1]), "nan-edge-point", true, first[1], first[0], mkBig(100)})
+				}
+			}
 			// the client helpers that move / mirror a node, aimed below one of the node's own descendants: the
 			// helper as a whole must fail and leave nothing behind (a move is two requests)
 			for e, del := range g.edges {
@@ -377,7 +401,7 @@ func checkC05(r *mc.Report, thorough bool) {
 		depth = 4
 	}
 	r.Explore(mc.Config{Name: fmt.Sprintf("graph-states-d%d", depth), Prune: true, SplitDepth: 2, StopAfterViolations: 12,
-		Rule: fmt.Sprintf("explicit-state search over graph states reached by %d legal writes (create/delete/undelete any of the 9 edges among root,A,B,C in either direction, node points), states = (edge set with tombstones, nodes with points, remaining depth); in EVERY new state the whole menu of must-be-refused requests is executed: self edges, root tombstone (value 1 alone / in a batch; values 3, 2, 0.5, -1, -2), new edge without node type (also below the root sentinel), every edge that would close a cycle through live or deleted edges (incl. through the root), client.MoveNode / MirrorNode of a node below one of its own descendants, NaN at each position of node-point and edge-point batches, NaN in points that carry a tombstone count; after each: error reply, the root query still names the same root, full snapshot unchanged, nothing on up.>, follow-up write+read answered", depth)},
+		Rule: fmt.Sprintf("explicit-state search over graph states reached by %d legal writes (create/delete/undelete any of the 9 edges among root,A,B,C in either direction, node points), states = (edge set with tombstones, nodes with points, remaining depth); in EVERY new state the whole menu of must-be-refused requests is executed: self edges, root tombstone (value 1 alone / in a batch; values 3, 2, 0.5, -1, -2), new edge without node type (also below the root sentinel), every edge that would close a cycle through live or deleted edges (incl. through the root), client.MoveNode / MirrorNode of a node below one of its own descendants, NaN at each position of node-point and edge-point batches, NaN at positions 64 / 100 / 149 of a 150-point batch, NaN in points that carry a tombstone count; after each: error reply, the root query still names the same root, full snapshot unchanged, nothing on up.>, follow-up write+read answered", depth)},
 		c05Body(depth))
 	sh.CleanupTemplate()
 	r.Assume("reference graph: an edge parent>child is cyclic iff parent==child or child is an ancestor of parent through any (live or deleted) edges")
